@@ -191,6 +191,18 @@ def make_environ(method='GET', path='/', qs='', headers=None, body=None, stream=
     return env
 
 
+class NarrowLog(io.StringIO):
+    """A wsgi.errors stream the way a server with an ASCII (or other narrow) error log provides it: text it cannot encode is refused."""
+
+    def __init__(self, encoding='ascii'):
+        super().__init__()
+        self.encoding_ = encoding
+
+    def write(self, s):
+        s.encode(self.encoding_)
+        return super().write(s)
+
+
 class FileWrapper:
     """A server-side wsgi.file_wrapper."""
 
